@@ -58,13 +58,26 @@ META = dict(
          "is not the harness' UTC (POSIX TZ strings east/west with whole-hour / 30 / 45 / 20 / 1 minute offsets, with and "
          "without DST; IANA names; some at the host zone's own transition), installed with time.tzset() in the driver, the "
          "controlled clock answering now() without tz with the host's local wall clock; a quarter of them with the "
-         "expression pinned to the minute the HOST's clock shows; neither the oracle nor the model sees the host zone",
+         "expression pinned to the minute the HOST's clock shows; neither the oracle nor the model sees the host zone; "
+         "40% of the groups build ONE ScheduledTask per distinct schedule and evaluate that object at every instant (the "
+         "rest rebuild it per evaluation), 15% of the groups straddle a DST transition of one of their zones; "
+         "plus label-source cases (one case = a real InMemoryBroker with 1-3 tasks whose `schedule` labels - 1-6 per task: "
+         "labels differing only in cron_offset / only in args / only in kwargs / only in cron, an equal label twice (also "
+         "as one dict object), the same label in two tasks, time labels and non-schedule entries in between - are listed by "
+         "the REAL LabelScheduleSource.get_schedules() on one source object at 2-6 polls (directly / through "
+         "run.get_schedules / run.get_all_schedules; source built before or after the tasks are registered; some polls "
+         "re-evaluate the objects of the previous listing; post_send() of a due time label between polls), every listed "
+         "ScheduledTask evaluated by get_task_delay; polls aimed at the instants at which each label's OWN wall clock shows "
+         "the expression's minute); judged per listed object by the same oracle and per declared label: the number of listed "
+         "schedules of a (task, args, kwargs) identity found due = the number of declared labels of that identity whose "
+         "expression matches in their own zone",
     trusted_base=["model: coq/theories/Cron.v (hand-written transcription of get_task_delay's cron branch and of pycron 3.3.0 "
                   "is_now/_parse_arg on the numeric grammar) and coq/theories/Civil.v (days-to-civil; checked against CPython "
                   "datetime fields on every case)",
                   "tzoff (Section variable) = UTC offset read by stdlib zoneinfo from pytz's own bundled TZif files",
                   "third-party pycron 3.3.0 and pytz: modelled / exercised, not verified",
-                  "AST -> text rendering and datetime<->integer conversion in harness/props/C13.py, harness/drivers/cron_driver.py"],
+                  "AST -> text rendering and datetime<->integer conversion in harness/props/C13.py, harness/drivers/cron_driver.py",
+                  "LabelScheduleSource / InMemoryBroker task registration: exercised (label-source family), not modelled"],
     assumptions=["cron steps >= 1 (pycron raises ZeroDivisionError / ValueError on step 0: outside the property's grammar)",
                  "the scheduler loop calling get_task_delay once per minute is C15, not this property"],
 )
@@ -454,11 +467,13 @@ def gen_group(r):
     The expressions are aimed at the wall clock of ONE (tick, offset) pair, so the verdict differs between the offsets
     of a tick: whatever the code keeps between calls (a memoised verdict, a reused datetime, ...) shows as a wrong
     element.  Every element is an ordinary case judged on its own (the statement and the model are stateless)."""
-    zfirst = []
+    zfirst, late = [], None
     if r.random() < .25:
         z = r.choice(DST_ZONES)
         T = r.choice(transitions_cached(z, r.choice([2019, 2024, 2026, 2027, 2031]))[:2])
         base, zfirst = T + r.randrange(-3 * HOUR, 3 * HOUR), [z]
+        if r.random() < .6:   # the ticks straddle the transition: the zone's shift changes between two evaluations of a schedule
+            base, late = T - r.randrange(MIN, 3 * HOUR), T // MIN * MIN + r.randrange(0, 180) * MIN
     else:
         base = r.randrange(Y2015, Y2035)
     base = base // MIN * MIN
@@ -490,12 +505,16 @@ def gen_group(r):
             ticks.append(base + r.choice([HOUR, DAY, 7 * DAY]))
         else:
             ticks.append(base + r.randrange(1, 3 * 1440) * MIN)
+    if late is not None:
+        ticks.append(late)
     ticks = sorted(set(ticks))
     # the whole group runs on ONE host (a scheduler process has one system zone), in a third of the groups not UTC
     host = pick_host(r, base, may_move=False) if r.random() < HOST_SHARE else None
     exprs = []
     for _ in range(r.choice([1, 1, 2])):
         aim = shifted(r.choice(ticks) + r.randrange(MIN), r.choice(offs))[0]
+        if late is not None and r.random() < .6:   # the transitioning zone's wall clock AFTER the transition
+            aim = shifted(late + r.randrange(MIN), offs[0])[0]
         mode = r.choices(["pin", "due", "near", "rand"], [.45, .3, .15, .1])[0]
         if host is not None and r.random() < .25:
             exprs.append((host_pin(r.choice(ticks), host[3]), "pin-host-clock"))
@@ -515,7 +534,361 @@ def gen_group(r):
             if host is not None:
                 c["host"], c["hostkind"] = host[0], host[1]
             elems.append(finish_case(r, c, e, "group:" + m))
-    return dict(group=elems, mode="group")
+    g = dict(group=elems, mode="group")
+    if r.random() < .4:   # ONE ScheduledTask per distinct schedule, evaluated at every instant (a source that keeps its objects)
+        g["objs"] = "once"
+    return g
+
+
+# --------------------------------------------------------------------------- schedules declared as task labels
+# The schedules of a deployment are not ScheduledTask objects somebody builds by hand: they are `schedule` labels of tasks,
+# listed minute after minute by LabelScheduleSource.get_schedules() on one long-lived source object.  One case = one
+# broker with 1-3 tasks x 1-6 labels and 2-6 polls; every listed ScheduledTask is evaluated by get_task_delay at every poll.
+LS_ARGS = [[], [1], [2], ["a"]]
+LS_KWARGS = [{}, {"k": 1}, {"k": 2}]
+LS_NAMES = ["t0", "t1", "t2", "job", "job:daily", "mod:job", "pkg.mod:job"]
+LS_SHAPES = ["offset-only", "offset-only", "offset-only", "args-only", "kwargs-only", "equal-twice", "cron-only", "single",
+             "offset-and-args"]
+LS_LABEL_CAP = 12
+
+
+def ls_content(l):
+    return {k: v for k, v in l.items() if k in ("cron", "off", "args", "kwargs")}
+
+
+def gen_labelsrc(r):
+    zfirst, late = [], None
+    if r.random() < .25:
+        z = r.choice(DST_ZONES)
+        T = r.choice(transitions_cached(z, r.choice([2019, 2024, 2026, 2027, 2031]))[:2])
+        base, zfirst = T + r.randrange(-3 * HOUR, 3 * HOUR), [z]
+        if r.random() < .6:   # the polls straddle the transition
+            base, late = T - r.randrange(MIN, 3 * HOUR), T // MIN * MIN + r.randrange(0, 180) * MIN
+    else:
+        base = r.randrange(Y2015, Y2035)
+    base = base // MIN * MIN
+    zs = zfirst + r.sample([z for z in ZONES if z not in zfirst], r.choice([1, 2, 2, 3]))
+    pool = [{"kind": "zone", "zone": z} for z in zs] + [None]
+    for _ in range(r.choice([0, 1, 1, 2])):
+        k = r.random()
+        if k < .4:
+            us = shifted(base, r.choice(pool[:len(zs)]))[1]
+        elif k < .5:
+            us = 0
+        else:
+            us = r.choice([r.randrange(-26 * HOUR, 26 * HOUR + 1), r.choice(TD_GRID), r.randrange(-26 * 60, 26 * 60 + 1) * MIN])
+        pool.append({"kind": "td", "us": us})
+    pool = [o for i, o in enumerate(pool) if o not in pool[:i]]
+    host = pick_host(r, base, may_move=False) if r.random() < HOST_SHARE else None
+    o0 = pool[0] if late is not None else r.choice(pool)
+    wall, sh0 = shifted(base, o0)
+    pf = pyfields(wall)
+
+    def aimed():
+        k = r.random()
+        if host is not None and k < .2:      # daily at the minute the HOST's clock shows at `base`
+            hp = host_pin(base, host[3])
+            return [hp[0], hp[1], ["star"], ["star"], ["star"]], "daily-host-clock"
+        if k < .4:                            # "every day at hh:mm" - in each label's own zone
+            return [["items", [["num", pf[0]]]], ["items", [["num", pf[1]]]], ["star"], ["star"], ["star"]], "daily"
+        if k < .55:                           # "hh:mm on working days"
+            a = r.randint(0, pf[4])
+            return [["items", [["num", pf[0]]]], ["items", [["num", pf[1]]]], ["star"], ["star"],
+                    ["items", [["range", a, r.randint(pf[4], 6)]]]], "weekdays"
+        if k < .7:
+            return pin_expr(pf), "pin"
+        return gen_expr(r, pf, r.choice(["due", "due", "near", "rand"]))
+
+    exprs = [aimed() for _ in range(r.choice([1, 1, 2]))]
+    if late is not None:    # what the transitioning zone's wall clock shows at the poll AFTER the transition
+        lpf = pyfields(shifted(late, pool[0])[0])
+        exprs[-1] = (pin_expr(lpf), "pin") if r.random() < .5 else gen_expr(r, lpf, "due")
+
+    def lab(e, o, a, kw):
+        l = dict(cron=render(e[0]), expr=e[0], emode=e[1], off=o)
+        if o is None and r.random() < .3:
+            l["offkey"] = True               # "cron_offset": None spelled out
+        if a or r.random() < .5:
+            l["args"] = a
+        if kw or r.random() < .5:
+            l["kwargs"] = kw
+        if r.random() < .15:
+            l["labels"] = {"x": r.randint(0, 3)}
+        return l
+
+    tasks, shapes, total = [], [], 0
+    names = r.sample(LS_NAMES, 3)
+    for ti in range(r.choice([1, 1, 2, 2, 3])):
+        labels = []
+        for shape in r.sample(LS_SHAPES, r.choice([1, 1, 2])):
+            e, a, kw, o = r.choice(exprs), r.choice(LS_ARGS), r.choice(LS_KWARGS), r.choice(pool)
+            shapes.append(shape)
+            if shape == "offset-only":
+                labels += [lab(e, o2, a, kw) for o2 in r.sample(pool, min(len(pool), r.choice([2, 2, 3, 4])))]
+            elif shape == "offset-and-args":
+                labels += [lab(e, o2, r.choice(LS_ARGS), kw) for o2 in r.sample(pool, min(len(pool), r.choice([2, 3])))]
+            elif shape == "args-only":
+                labels += [lab(e, o, a2, kw) for a2 in r.sample(LS_ARGS, r.choice([2, 3]))]
+            elif shape == "kwargs-only":
+                labels += [lab(e, o, a, k2) for k2 in r.sample(LS_KWARGS, r.choice([2, 3]))]
+            elif shape == "equal-twice":
+                l = lab(e, o, a, kw)
+                l2 = json.loads(json.dumps(l))
+                if r.random() < .4:
+                    l2["sameobj"] = True
+                labels += [l, l2]
+            elif shape == "cron-only":
+                labels += [lab(e, o, a, kw), lab(aimed(), o, a, kw)]
+            else:
+                labels.append(lab(e, o, a, kw))
+        if tasks and r.random() < .3:   # a label of an earlier task again, in this task
+            src = [l for l in tasks[-1]["schedule"] if "cron" in l]
+            if src:
+                labels.append({k: v for k, v in json.loads(json.dumps(r.choice(src))).items() if k != "same"})
+        if r.random() < .5:
+            r.shuffle(labels)
+        labels = labels[:max(1, min(6, LS_LABEL_CAP - total))]
+        total += len(labels)
+        k = r.random()
+        if k < .12:      # a time schedule far in the future: listed, never due, not a cron schedule
+            labels.insert(r.randint(0, len(labels)), {"time": Y2035 + r.randrange(DAY)})
+        elif k < .22:    # a label that is no schedule at all: skipped by the source
+            labels.insert(r.randint(0, len(labels)), {"junk": 1, "args": [9]})
+        elif k < .32:    # a time schedule already past: due once, then post_send() pops the label and later labels move up
+            labels.insert(r.randint(0, max(0, len(labels) - 1)), {"time": base - r.randrange(1, 30) * DAY, "past": True})
+        for i, l in enumerate(labels):
+            if l.pop("sameobj", False):
+                js = [j for j in range(i) if "cron" in labels[j] and "same" not in labels[j]
+                      and ls_content(labels[j]) == ls_content(l) and labels[j].get("labels") == l.get("labels")
+                      and labels[j].get("offkey") == l.get("offkey")]
+                if js:
+                    l["same"] = js[0]    # the very same dict object appears twice in the list
+        t = dict(name=names[ti], decl=r.choice(["register", "decorator"]), schedule=labels)
+        if r.random() < .2:
+            t["extra"] = {"queue": "q%d" % ti}
+        tasks.append(t)
+        if total >= LS_LABEL_CAP:
+            break
+    used = []
+    for t in tasks:
+        for l in t["schedule"]:
+            if "cron" in l and l["off"] not in used:
+                used.append(l["off"])
+    cand = [(base + sh0 - shifted(base, o)[1]) // MIN * MIN for o in used]   # o's wall clock shows what o0's shows at base
+    cand = [t for i, t in enumerate(cand) if t not in cand[:i]]
+    mins = r.sample(cand, min(len(cand), r.choice([2, 3, 4])))
+    if base not in mins and r.random() < .5:
+        mins.append(base)
+    for _ in range(r.choice([0, 1, 1, 2])):
+        k, t = r.random(), r.choice(mins)
+        mins.append(t if k < .15 else t + MIN if k < .4 else t + r.choice([HOUR, DAY, 7 * DAY]) if k < .85
+                    else t + r.randrange(1, 3 * 1440) * MIN)
+    mins = sorted(mins)[:6]
+    if late is not None:
+        mins = sorted(set(mins[:5] + [late]))
+    edge = r.random() < .3
+    polls, last = [], -1
+    past = any(l.get("past") for t in tasks for l in t["schedule"])
+    for i, m in enumerate(mins):   # the same minute may be polled twice (second 0 and 59.999999 when `edge`)
+        if edge:
+            sec = r.choice([0, MIN - 1]) if mins.count(m) == 1 else 0 if mins[:i].count(m) == 0 else MIN - 1
+        else:
+            sec = r.randrange(MIN)
+        now = min(max(m + sec, last + 1), m + MIN - 1)
+        if now <= last:
+            continue
+        last = now
+        p = dict(now=now)
+        if i and r.random() < (.5 if late is not None else .2):
+            p["relist"] = False          # the objects of the previous listing are evaluated again at this instant
+        if i and r.random() < .08:
+            p["newsrc"] = True
+        p["via"] = r.choice(["source", "run.get_schedules", "get_all_schedules", "get_all_schedules"])
+        if past:
+            p["post_send"] = True
+        polls.append(p)
+    L = dict(tasks=tasks, polls=polls, src_first=r.random() < .5, shapes=shapes)
+    if host is not None:
+        L["host"], L["hostkind"] = host[0], host[1]
+    return dict(labelsrc=L, mode="labelsrc")
+
+
+def ls_key(name, args, kwargs):
+    return C.canon([name, args, kwargs])
+
+
+def ls_listed_off(o):
+    """the offset the LISTED ScheduledTask carries (what get_task_delay was given)"""
+    if o.get("offtype") == "NoneType":
+        return None
+    if "off_us" in o:
+        return {"kind": "td", "us": o["off_us"]}
+    if "off_zone" in o:
+        return {"kind": "zone", "zone": o["off_zone"]}
+    raise ValueError("offset of type %s" % o.get("offtype"))
+
+
+def judge_labelsrc(L, O):
+    """The statement over schedules DECLARED as labels.  Per poll: {"crash"} or {"elements": [(element case, its
+    observation, due by the statement for the offset the listed object carries)], "declared": [(task, label, due by the
+    statement in the label's OWN zone)], "bad": [(key, want, got)]}.  A declared cron schedule is identified by what the
+    scheduler would send for it - (task name, args, kwargs): at every poll the number of listed schedules of that identity
+    that get_task_delay considers due must be the number of declared labels of that identity whose expression matches the
+    minute of the clock shifted by the label's own offset.  (Nothing is demanded of the order of the listing, of
+    schedule ids, of the offsets' representation or of schedules that are listed but not due.)"""
+    asts = {}
+    for t in L["tasks"]:
+        for l in t["schedule"]:
+            if "cron" in l:
+                asts.setdefault(l["cron"], l["expr"])
+    out = []
+    for p, po in zip(L["polls"], O.get("polls") or [{"_crash": O.get("_crash", "no observation")}] * len(L["polls"])):
+        if "_crash" in po:
+            out.append(dict(crash=po["_crash"]))
+            continue
+        want, got, declared, elements, raised = {}, {}, [], [], []
+        for t in L["tasks"]:
+            for l in t["schedule"]:
+                if "cron" not in l:
+                    continue
+                due = oracle_due(l["cron"], pyfields(shifted(p["now"], l["off"])[0]))
+                k = ls_key(t["name"], l.get("args", []), l.get("kwargs", {}))
+                want[k] = want.get(k, 0) + (1 if due else 0)
+                declared.append((t["name"], l, due))
+        for o in po["listed"]:
+            if o.get("cron") is None:
+                continue
+            k = ls_key(o["task_name"], o["args"], o["kwargs"])
+            if "raised" in o or "_crash" in o:
+                raised.append(o)
+                continue
+            if o["delay"] == 0:
+                got[k] = got.get(k, 0) + 1
+            e = dict(now=p["now"], off=ls_listed_off(o), cron=o["cron"], expr=asts.get(o["cron"]), mode="labelsrc")
+            try:
+                w = oracle_due(o["cron"], pyfields(shifted(p["now"], e["off"])[0]))
+            except Exception:   # a listed expression / zone the statement's grammar does not read: only the counts judge it
+                w = None
+            elements.append((e, o, w))
+        bad = [(k, want.get(k, 0), got.get(k, 0)) for k in sorted(set(want) | set(got)) if want.get(k, 0) != got.get(k, 0)]
+        out.append(dict(elements=elements, declared=declared, bad=bad, raised=raised))
+    return out
+
+
+LS_NOTE = " [schedules declared as task labels, listed by LabelScheduleSource.get_schedules() poll after poll]"
+
+
+def ls_pair_counts(rep, L):
+    for t in L["tasks"]:
+        ls = [l for l in t["schedule"] if "cron" in l]
+        rep.count("labelsrc:cron-labels-per-task=%d" % len(ls))
+        for i, a in enumerate(ls):
+            for b in ls[:i]:
+                same = [a[k] == b[k] for k in ("cron", "off")] + [a.get("args", []) == b.get("args", []),
+                                                                  a.get("kwargs", {}) == b.get("kwargs", {})]
+                if all(same):
+                    rep.count("labelsrc:label-pair:equal twice" + (" (one dict object)" if "same" in a else ""))
+                elif same == [True, False, True, True]:
+                    rep.count("labelsrc:label-pair:differ only in cron_offset")
+                elif same == [True, True, False, True]:
+                    rep.count("labelsrc:label-pair:differ only in args")
+                elif same == [True, True, True, False]:
+                    rep.count("labelsrc:label-pair:differ only in kwargs")
+                elif same == [False, True, True, True]:
+                    rep.count("labelsrc:label-pair:differ only in cron")
+        for l in t["schedule"]:
+            if "cron" not in l:
+                rep.count("labelsrc:non-cron-label:" + ("time (past, popped by post_send)" if l.get("past") else
+                                                        "time (future)" if "time" in l else "no schedule"))
+    ts = L["tasks"]
+    for i, a in enumerate(ts):
+        for b in ts[:i]:
+            if any(ls_content(x) == ls_content(y) for x in a["schedule"] for y in b["schedule"] if "cron" in x and "cron" in y):
+                rep.count("labelsrc:two tasks with an equal label")
+            elif any(x["cron"] == y["cron"] and x.get("args", []) == y.get("args", []) and x["off"] != y["off"]
+                     for x in a["schedule"] for y in b["schedule"] if "cron" in x and "cron" in y):
+                rep.count("labelsrc:two tasks with labels differing only in cron_offset")
+
+
+def explore_labels(ctx, rep, cases, label):
+    obs = C.run_driver(ctx, "cron_driver", cases, nproc=min(C.NPROC, 1 + len(cases) // 25))
+    lits, keep = [], []
+    for c, O in zip(cases, obs):
+        L = c["labelsrc"]
+        rep.count("labelsrc:cases")
+        rep.count("labelsrc:tasks=%d" % len(L["tasks"]))
+        rep.count("labelsrc:polls=%d" % len(L["polls"]))
+        rep.count("labelsrc:source built " + ("before" if L.get("src_first") else "after") + " the tasks are registered")
+        for sh in L.get("shapes", []):
+            rep.count("labelsrc:shape:" + sh)
+        ls_pair_counts(rep, L)
+        if "_crash" in O:
+            rep.fail("cron driver crashed" + LS_NOTE, c, observed=O["_crash"])
+            continue
+        for pi, (p, po, j) in enumerate(zip(L["polls"], O["polls"], judge_labelsrc(L, O))):
+            rec = dict(labelsrc=dict(L, polls=L["polls"][:pi + 1]), at=pi, mode="labelsrc")
+            if "crash" in j:
+                rep.fail("listing the schedule labels raised" + LS_NOTE, rec, observed=j["crash"])
+                continue
+            rep.count("labelsrc:poll:" + ("listed again" if po.get("relisted") else "objects of the previous listing evaluated again"))
+            if po.get("relisted"):
+                rep.count("labelsrc:via:" + (p.get("via") or "source"))
+            if p.get("newsrc"):
+                rep.count("labelsrc:poll:new source object")
+            if any(o.get("same_obj_as_prev") for o in po["listed"]):
+                rep.count("labelsrc:poll:evaluates objects already evaluated at the previous poll")
+            # polls at which labels of one identity (task, cron, args, kwargs) that differ in cron_offset get different verdicts
+            byid = {}
+            for name, l, due in j["declared"]:
+                byid.setdefault(C.canon([name, l["cron"], l.get("args", []), l.get("kwargs", {})]), set()).add((C.canon(l["off"]), due))
+            if any(len({d for _, d in v}) > 1 for v in byid.values()):
+                rep.count("labelsrc:poll:labels differing only in cron_offset, due under one, not due under another")
+            for o in j["raised"]:
+                rep.fail("get_task_delay raised on a schedule declared as a label" + LS_NOTE, rec, observed=o, sig=dict(kind="raised"))
+            for e, o, w in j["elements"]:
+                rep.case(e, e["expr"] is not None and nontrivial(e))
+                rep.count("labelsrc:listed-evaluations")
+                rep.count("offset:" + ("none" if e["off"] is None else e["off"]["kind"]))
+                rep.count("mode:labelsrc")
+                rep.count("host-zone:" + (L.get("hostkind") or "UTC (harness default)"))
+                rep.count("second-of-minute:" + ("0" if e["now"] % MIN == 0 else "59.999999" if e["now"] % MIN == MIN - 1
+                                                 else "interior"))
+                d = o["delay"]
+                rep.count("outcome:" + ("due" if d == 0 else "not-due"))
+                if o.get("badtype"):
+                    rep.fail("get_task_delay returned neither 0 nor None for a cron schedule" + LS_NOTE, rec, observed=d)
+                    continue
+                if w is None or e["expr"] is None:
+                    rep.count("labelsrc:listed schedule with an expression / zone that was not declared")
+                    continue
+                loc, sh = shifted(e["now"], e["off"])
+                pf = pyfields(loc)
+                branch_counts(rep, e, pf, w)
+                if (d == 0) != w:
+                    rep.fail("cron schedule %s in a minute its expression %s" % (
+                        ("reported due", "does not match") if d == 0 else ("not reported due", "matches")) + LS_NOTE, rec,
+                        observed=dict(delay=d, cron=o["cron"], task=o["task_name"]),
+                        expected=dict(due=w, fields_minute_hour_dom_month_dow_year=pf, shift_us=sh),
+                        sig=dict(kind="polarity", got_due=(d == 0), offset="none" if e["off"] is None else e["off"]["kind"],
+                                 in_labelsrc=True))
+                lits.append(coq_case(e, sh, pf, d, True))
+                keep.append(rec)
+            if j["bad"]:
+                k, w, g = j["bad"][0]
+                rep.fail("cron schedule declared as a task label %s" % (
+                    "considered due in a minute its expression does not match on the clock shifted by ITS OWN offset" if g > w
+                    else "not considered due in a minute its expression matches on the clock shifted by ITS OWN offset") + LS_NOTE,
+                    rec, observed=dict(due_per_identity={k2: g2 for k2, _, g2 in j["bad"]},
+                                       listed=[{x: o.get(x) for x in ("task_name", "cron", "offtype", "off_us", "off_zone", "args",
+                                                                       "kwargs", "delay")} for o in po["listed"]]),
+                    expected=dict(due_per_identity={k2: w2 for k2, w2, _ in j["bad"]},
+                                  declared=[dict(task=n, cron=l["cron"], off=l["off"], args=l.get("args", []),
+                                                 kwargs=l.get("kwargs", {}), due_in_its_own_zone=due) for n, l, due in j["declared"]]),
+                    sig=dict(kind="label-polarity", got_more=g > w, in_labelsrc=True))
+    bad, fails, _ = C.coq_eval(ctx, label, COQ_HEADER, lits, COQ_BODY)
+    rep.corr(label, len(lits), bad, fails, lambda i: keep[i])
+    rep.traces += len(lits) - len(bad)
+    return bad or fails
 
 
 def nontrivial(c):
@@ -627,7 +1000,8 @@ def flatten(cases, obs):
             continue
         eo = o["group"] if "group" in o else [o] * len(c["group"])
         for k, (e, x) in enumerate(zip(c["group"], eo)):
-            out.append((e, x, dict(group=c["group"][:k + 1], at=k, mode="group"), True))
+            out.append((e, x, dict(group=c["group"][:k + 1], at=k, mode="group", **({"objs": c["objs"]} if c.get("objs") else {})),
+                        True))
     return out
 
 
@@ -723,6 +1097,8 @@ def explore(ctx, rep, cases, label, judge=True):
         if "group" in c:
             n = len(c["group"])
             group_counts(rep, c["group"], [wants.get(i) for i in range(idx, idx + n)])
+            rep.count("group:objects:" + ("one ScheduledTask per schedule, evaluated at every instant" if c.get("objs") == "once"
+                                          else "rebuilt for every evaluation"))
             idx += n
         else:
             idx += 1
@@ -742,12 +1118,16 @@ def run(ctx):
     rep.extra["source_tie"] = src_info
     corpus = [c for _, c in C.load_corpus("C13")]
     if corpus:
-        explore(ctx, rep, corpus, "corpus")
+        explore(ctx, rep, [c for c in corpus if "labelsrc" not in c], "corpus")
     r = ctx.sub_rng("gen")
     cases = [gen_case(r) for _ in range(ctx.n(2500, 40000))]
     broken = explore(ctx, rep, cases, "main")
     rg = ctx.sub_rng("groups")
     broken = explore(ctx, rep, [gen_group(rg) for _ in range(ctx.n(160, 2500))], "back-to-back-groups") or broken
+    rl = ctx.sub_rng("labelsrc")
+    # (the corpus entries of this family run first in the same driver / coqc invocation)
+    broken = explore_labels(ctx, rep, [c for c in corpus if "labelsrc" in c] +
+                            [gen_labelsrc(rl) for _ in range(ctx.n(70, 1200))], "label-source") or broken
     if ctx.quick:
         sw = gen_sweep(ctx.sub_rng("sweep"), sweep_windows(ctx.sub_rng("windows"))[:8], stride=40)
     else:
@@ -766,6 +1146,8 @@ def run(ctx):
         r2 = ctx.sub_rng("search")
         explore(ctx, rep, [gen_case(r2) for _ in range(ctx.n(30000, 200000))] +
                 [gen_group(r2) for _ in range(ctx.n(1500, 10000))], "search")
+        if not rep.failures:
+            explore_labels(ctx, rep, [gen_labelsrc(r2) for _ in range(ctx.n(600, 4000))], "search-label-source")
     return rep.finish()
 
 
@@ -780,6 +1162,8 @@ def replay(ctx, path):
                 rc |= replay(ctx, os.path.join(ctx.dir, "one.json"))
         return 1 if rc or not rec.get("first_differing_cases") else rc
     c = rec["case"] if "case" in rec else rec
+    if "labelsrc" in c:
+        return replay_labelsrc(ctx, c)
     if "group" in c:
         return replay_group(ctx, c)
     o = C.run_driver(ctx, "cron_driver", [c], nproc=1)[0]
@@ -811,10 +1195,11 @@ def replay(ctx, path):
 
 def replay_group(ctx, g):
     """the whole group again in one fresh process, every element judged on its own"""
-    o = C.run_driver(ctx, "cron_driver", [dict(group=g["group"])], nproc=1)[0]
+    o = C.run_driver(ctx, "cron_driver", [dict(group=g["group"], **({"objs": g["objs"]} if g.get("objs") else {}))], nproc=1)[0]
     obs = o["group"] if "group" in o else [o] * len(g["group"])
-    print("back-to-back group of %d evaluations in one process%s" % (
-        len(obs), "" if g.get("at") is None else " (recorded failing element: %d)" % g["at"]))
+    print("back-to-back group of %d evaluations in one process%s%s" % (
+        len(obs), "" if g.get("at") is None else " (recorded failing element: %d)" % g["at"],
+        "; one ScheduledTask object per distinct schedule, evaluated at every instant" if g.get("objs") == "once" else ""))
     rc, lits = 0, []
     for k, (c, x) in enumerate(zip(g["group"], obs)):
         if "_crash" in x or "raised" in x:
@@ -836,6 +1221,71 @@ def replay_group(ctx, g):
         bad, fails, _ = C.coq_eval(ctx, "replay", COQ_HEADER, lits, COQ_BODY)
         print("model (Coq, cron_delay = implementation and C13_check, element-wise):", "agrees" if not bad and not fails else
               "DIFFERS at %r %s" % (bad, "; ".join(fails)))
+        rc |= 1 if bad or fails else 0
+    print("holds" if rc == 0 else "VIOLATED")
+    return rc
+
+
+def replay_labelsrc(ctx, c):
+    """the declared labels again on a fresh broker / source in a fresh process, every poll judged"""
+    L = c["labelsrc"]
+    O = C.run_driver(ctx, "cron_driver", [dict(labelsrc=L)], nproc=1)[0]
+    print("schedules declared as task labels, listed by the real LabelScheduleSource.get_schedules() (source object built %s "
+          "the tasks are registered), every listed ScheduledTask evaluated by get_task_delay; %d poll(s)%s" % (
+              "before" if L.get("src_first") else "after", len(L["polls"]),
+              "" if c.get("at") is None else " (recorded failing poll: %d)" % c["at"]))
+    if L.get("host"):
+        print("host time zone of the scheduler process (TZ): %s - the statement does not depend on it" % L["host"])
+    for t in L["tasks"]:
+        print("task %r (%s%s): schedule = [" % (t["name"], t.get("decl", "register"),
+                                               "" if not t.get("extra") else ", other labels %r" % t["extra"]))
+        for l in t["schedule"]:
+            print("    %s%s," % (json.dumps({k: v for k, v in l.items() if k not in ("expr", "emode", "same")}),
+                               "" if "same" not in l else "   # the same dict object as entry %d" % l["same"]))
+        print("]")
+    if "_crash" in O:
+        print("VIOLATED (driver crashed): %s" % O["_crash"])
+        return 1
+    rc, lits = 0, []
+    for pi, (p, po, j) in enumerate(zip(L["polls"], O["polls"], judge_labelsrc(L, O))):
+        print("poll %d: now=%d (%s UTC)%s%s" % (
+            pi, p["now"], (EP + dt.timedelta(microseconds=p["now"])).strftime("%Y-%m-%dT%H:%M:%S.%f"),
+            "" if p.get("relist", True) or pi == 0 else " - NOT listed again: the objects of the previous listing are evaluated",
+            " - new source object" if p.get("newsrc") else ""))
+        if "crash" in j:
+            print("  VIOLATED (listing raised): %s" % j["crash"])
+            rc = 1
+            continue
+        for name, l, due in j["declared"]:
+            print("  declared: task=%s cron=%r off=%s args=%s kwargs=%s: wall clock in ITS zone %s -> %s" % (
+                name, l["cron"], json.dumps(l["off"]), json.dumps(l.get("args", [])), json.dumps(l.get("kwargs", {})),
+                shifted(p["now"], l["off"])[0].isoformat(), "due" if due else "not due"))
+        for o in po["listed"]:
+            print("  listed:   task=%s cron=%r cron_offset=%s args=%s kwargs=%s%s -> get_task_delay: %s" % (
+                o.get("task_name"), o.get("cron"), o.get("off_zone", o.get("off_us")), json.dumps(o.get("args")),
+                json.dumps(o.get("kwargs")), "" if "time_us" not in o else " time=%d" % o["time_us"],
+                o.get("raised") or o.get("delay")))
+        for o in j["raised"]:
+            print("  VIOLATED (raised): %s" % o)
+            rc = 1
+        for e, o, w in j["elements"]:
+            if w is not None and (o["delay"] == 0) != w:
+                print("  VIOLATED: listed schedule %r with offset %s: expected %s, got %s" % (
+                    o["cron"], json.dumps(e["off"]), "due (0)" if w else "not due (None)", o["delay"]))
+                rc = 1
+            if w is not None and e["expr"] is not None and not o.get("badtype"):
+                loc, sh = shifted(e["now"], e["off"])
+                lits.append(coq_case(e, sh, pyfields(loc), o["delay"], True))
+        for k, w, g in j["bad"]:
+            print("  VIOLATED: schedules of [task, args, kwargs] = %s: %d declared label(s) match this minute in their own zone, "
+                  "%d listed schedule(s) considered due" % (k, w, g))
+            rc = 1
+        if not j["bad"] and not j["raised"]:
+            print("  every declared cron label is considered due exactly if it matches: holds")
+    if lits:
+        bad, fails, _ = C.coq_eval(ctx, "replay", COQ_HEADER, lits, COQ_BODY)
+        print("model (Coq, cron_delay = implementation and C13_check, per listed schedule with the offset it carries):",
+              "agrees" if not bad and not fails else "DIFFERS at %r %s" % (bad, "; ".join(fails)))
         rc |= 1 if bad or fails else 0
     print("holds" if rc == 0 else "VIOLATED")
     return rc
